@@ -177,6 +177,21 @@ def run_shard(ctx):
                              "bindings_per_sink": [len(n) for n in nss]})
             continue
         cfg, stmts, ns = workloads.serializer_case(rng, max_len=50 if ctx.tier == "quick" else rng.choice([50, 50, 300]))
+        if cfg["integration"] == "rdflib" and cfg["entry"] in ("flat_frames", "flat_to_file", "stream_frames_gen") and rng.random() < .3:
+            # GENERALIZED statements through the rdflib generator entry points (what parse_jelly_flat yields from a generalized
+            # file can be written back): literals in subject / predicate position, blank-node predicates
+            def gen_term(t, slot):
+                r = rng.random()
+                if slot in (0, 1) and r < .35:
+                    return rng.choice([("lit", "x", None, None), ("lit", "1", None, "http://ex.org/dt/a"), ("lit", "chat", "fr", None)])
+                if slot == 1 and r < .5:
+                    return ("bnode", "pb")
+                return t
+            stmts = [tuple(gen_term(t, k) if k < 2 else t for k, t in enumerate(st)) for st in stmts]
+            cfg["generalized"] = True
+            n_, p_, d_ = cfg["preset"]
+            cfg["preset"] = (n_, p_, max(d_, 4))
+            ctx.observe("rdflib-generalized-statements")
         if rng.random() < 0.1 and stmts and not ns:
             cfg["failed_attempt_first"] = rng.randint(1, len(stmts))
             ctx.observe("retry-after-failed-attempt-with-same-options-object")
